@@ -93,12 +93,14 @@ def translate():
         r"\.unwrap_or_else\(\|\| target_pc\.into\(\)\) \+ (\d+)\) \.as_i64\(\); "
         r"let mut offset = target_pc - cur_pc; "
         r"if \((-?\d+)(\.\.=|\.\.)(-?\d+)\)\.contains\(&offset\) \{ if offset < 0 \{ offset \+= (\d+); \} offset as i64 \} "
-        r"else if target_pc == (\d+) \{ 0 \} else \{ return Err\(",
+        r"else if target_pc == (\d+) \{ 0 \} else \{ (?:self\.emit\(full_span, &\[((?:\d+(?:, )?)*)\]\)\?; )?return Err\(",
         bra,
     )
     if not m:
         raise ShapeError("instruction arm: branch computation has unrecognised shape: %s" % bra[:300])
     plus, rlo, rop, rhi, fix, esc = int(m.group(1)), int(m.group(2)), m.group(3), int(m.group(4)), int(m.group(5)), int(m.group(6))
+    # bytes still emitted for a branch that is too far (none on older trees)
+    too_far_bytes = [int(x) for x in m.group(7).split(", ")] if m.group(7) else []
     rhi_incl = rhi if rop == "..=" else rhi - 1
     if not re.search(r"\} _ => value, \};", bra):
         raise ShapeError("instruction arm: non-branch value arm not `_ => value`")
@@ -139,6 +141,7 @@ def translate():
     out.append("Definition branch_fix : Z := %d%%Z." % fix)
     out.append("Definition branch_escape_target : Z := %d%%Z." % esc)
     out.append("Definition invalid_instruction_byte : N := %d." % invalid_byte)
+    out.append("Definition branch_too_far_bytes : list N := [%s]." % "; ".join(str(b) for b in too_far_bytes))
     out.append("Open Scope string_scope.")
     out.append(
         "Definition implied_mnemonic_alt : list (string * mnemonic) := ["
